@@ -486,6 +486,9 @@ func (ch *channel) deriveAndSetBitrates() {
 		if trd.init.Moov.Trak.Mdia.Minf.Stbl.Stsd.GetBtrt() == nil {
 			// Estimate bitrate from the segments available
 			sdb := ch.segTimesGen.segDataBuffers[name]
+			if sdb == nil || sdb.nrItems() == 0 {
+				continue // no segment of this track yet: nothing to estimate from
+			}
 			totDur := uint64(0)
 			totSize := uint64(0)
 			var timeScale uint32 = 0
@@ -501,6 +504,9 @@ func (ch *channel) deriveAndSetBitrates() {
 				}
 				totDur += uint64(sdb.items[i].dur)
 				totSize += uint64(sdb.items[i].totSize)
+			}
+			if totDur == 0 {
+				continue
 			}
 			bitrate := uint32(totSize * 8 * uint64(timeScale) / totDur)
 		repLoop:
@@ -522,7 +528,7 @@ func (ch *channel) deriveAndSetFrameRates(log *slog.Logger) {
 		if trd.contentType != "video" {
 			continue
 		}
-		if sdb.nrItems() == 0 {
+		if sdb == nil || sdb.nrItems() == 0 {
 			log.Warn("Cannot derive frame rate since no segments for track", "trName", name)
 			continue
 		}
